@@ -2,9 +2,12 @@ package engine_test
 
 import (
 	"fmt"
+	"math"
 	"sort"
+	"strconv"
 	"strings"
 	"testing"
+	"time"
 
 	"github.com/sanonone/kektordb/internal/zzverif/vexec"
 	"github.com/sanonone/kektordb/internal/zzverif/vkit"
@@ -22,6 +25,10 @@ import (
 
 const c11Index = "g"
 
+// c11SpinFreeDepth: largest maxDepth the random workload uses for an unreachable target while
+// D-C11-2 is an open finding (see c11Probes).
+const c11SpinFreeDepth = 1000
+
 // ---- reference view ---------------------------------------------------------------------
 
 type c11Edge struct {
@@ -30,14 +37,21 @@ type c11Edge struct {
 }
 
 type c11Ref struct {
-	edges  []c11Edge
-	live   map[string]bool // nodes that are live vectors of the index
-	stamps []int64
+	edges    []c11Edge
+	live     map[string]bool // nodes that are live vectors of the index
+	vecs     map[string][]float32
+	adjCache map[string]map[string][]string
+	bfsCache map[string]map[string]int
+	stamps   []int64
 }
 
-func c11BuildRef(x *vexec.Exec) *c11Ref {
-	r := &c11Ref{live: map[string]bool{}}
+func c11BuildRef(x *vexec.Exec, ix string) *c11Ref {
+	r := &c11Ref{live: map[string]bool{}, vecs: map[string][]float32{}}
+	pre := vexec.GraphID(ix, "")
 	for k, vs := range x.M.Edges {
+		if !strings.HasPrefix(k.Src, pre) {
+			continue // another index's name space: invisible to queries on ix
+		}
 		for _, v := range vs {
 			r.edges = append(r.edges, c11Edge{Src: vexec.NodeOf(k.Src), Tgt: vexec.NodeOf(v.Target), Rel: k.Rel, C: v.Created, D: v.Deleted})
 		}
@@ -55,9 +69,10 @@ func c11BuildRef(x *vexec.Exec) *c11Ref {
 		}
 		return a.Tgt < b.Tgt
 	})
-	if mi := x.M.Idx[c11Index]; mi != nil {
-		for id := range mi.Recs {
+	if mi := x.M.Idx[ix]; mi != nil {
+		for id, rec := range mi.Recs {
 			r.live[id] = true
+			r.vecs[id] = rec.Vec
 		}
 	}
 	r.stamps = x.M.Stamps()
@@ -84,7 +99,40 @@ func (r *c11Ref) hasEdge(a, b string, rels map[string]bool, t int64) bool {
 
 // adj builds the neighbour lists at time t over the allowed relations.
 // dir: "out" follows edges forward, "in" backward, "both" either way.
+// The reference is immutable once built, so the lists are memoised per (relations, t, dir);
+// callers only read them.
 func (r *c11Ref) adj(rels map[string]bool, t int64, dir string) map[string][]string {
+	key := c11AdjKey(rels, t, dir)
+	if a, ok := r.adjCache[key]; ok {
+		return a
+	}
+	a := r.adjBuild(rels, t, dir)
+	if r.adjCache == nil {
+		r.adjCache = map[string]map[string][]string{}
+	}
+	r.adjCache[key] = a
+	return a
+}
+
+func c11AdjKey(rels map[string]bool, t int64, dir string) string {
+	return strings.Join(vexec.SortedKeys(rels), ",") + "|" + strconv.FormatInt(t, 10) + "|" + dir
+}
+
+// distFrom: unlimited-depth hop distances from src (memoised like adj).
+func (r *c11Ref) distFrom(rels map[string]bool, t int64, dir, src string) map[string]int {
+	key := c11AdjKey(rels, t, dir) + "|" + src
+	if d, ok := r.bfsCache[key]; ok {
+		return d
+	}
+	d := c11BFS(r.adj(rels, t, dir), src, -1)
+	if r.bfsCache == nil {
+		r.bfsCache = map[string]map[string]int{}
+	}
+	r.bfsCache[key] = d
+	return d
+}
+
+func (r *c11Ref) adjBuild(rels map[string]bool, t int64, dir string) map[string][]string {
 	set := map[string]map[string]bool{}
 	add := func(a, b string) {
 		if set[a] == nil {
@@ -221,10 +269,14 @@ type c11G struct {
 	ctx   *vkit.Ctx
 	cs    *vkit.Case
 	x     *vexec.Exec
+	ix    string // the index (graph name space) this view queries
 	ref   *c11Ref
 	nodes []string
 	rels  []string
 	dim   int
+	// twin: a second index on the same engine whose graph uses the SAME node ids with a
+	// different edge set and its own vectors (name-space isolation). nil in most cases.
+	twin *c11G
 	// per-case observations
 	multiHop  bool // some FindPath answer had >= 2 hops
 	histDiff  bool // some query ran at an instant whose active edge set differs from now
@@ -234,28 +286,40 @@ type c11G struct {
 }
 
 func c11Open(ctx *vkit.Ctx, cs *vkit.Case, nodes, rels []string, noVector map[string]bool) *c11G {
-	g := &c11G{ctx: ctx, cs: cs, nodes: nodes, rels: rels, dim: 3}
+	g := &c11G{ctx: ctx, cs: cs, ix: c11Index, nodes: nodes, rels: rels, dim: 3}
 	g.x = vexec.NewExec(cs, cs.SubDir("data"))
+	g.create(noVector)
+	return g
+}
+
+func (g *c11G) create(noVector map[string]bool) {
 	metric := distance.Euclidean
-	if cs.R.Chance(0.3) {
+	if g.cs.R.Chance(0.3) {
 		metric = distance.Cosine
 	}
 	// exact regime: at most 8 vectors, M=16 (base layer holds 32 links), efConstruction 200
-	if err := g.x.VCreate(vexec.IndexCfg{Name: c11Index, Metric: metric, Prec: distance.Float32, M: 16, EfC: 200}); err != nil {
-		cs.Fail("VCreate failed: %v", err)
+	if err := g.x.VCreate(vexec.IndexCfg{Name: g.ix, Metric: metric, Prec: distance.Float32, M: 16, EfC: 200}); err != nil {
+		g.cs.Fail("VCreate failed: %v", err)
 	}
-	for i, n := range nodes {
+	for i, n := range g.nodes {
 		if noVector[n] {
 			continue
 		}
 		g.addVec(i, n)
 	}
-	return g
+}
+
+// openTwin creates a second index on the same engine with the same node ids.
+func (g *c11G) openTwin(name string, noVector map[string]bool) *c11G {
+	t := &c11G{ctx: g.ctx, cs: g.cs, x: g.x, ix: name, nodes: g.nodes, rels: g.rels, dim: g.dim}
+	t.create(noVector)
+	g.twin = t
+	return t
 }
 
 func (g *c11G) addVec(i int, n string) {
 	v := []float32{float32(i + 1), float32((i*7)%5) + 0.5, 1 + g.cs.R.F32()*0.25}
-	if err := g.x.VAdd(c11Index, n, v, map[string]any{"i": float64(i)}); err != nil {
+	if err := g.x.VAdd(g.ix, n, v, map[string]any{"i": float64(i)}); err != nil {
 		g.cs.Fail("VAdd(%s) failed: %v", n, err)
 	}
 }
@@ -269,13 +333,13 @@ func (g *c11G) close() {
 }
 
 func (g *c11G) link(a, b, rel string) {
-	if err := g.x.VLink(c11Index, a, b, rel, "", 1, nil); err != nil {
+	if err := g.x.VLink(g.ix, a, b, rel, "", 1, nil); err != nil {
 		g.cs.Fail("VLink failed: %v", err)
 	}
 }
 
 func (g *c11G) unlink(a, b, rel string) {
-	if err := g.x.VUnlink(c11Index, a, b, rel, "", false); err != nil {
+	if err := g.x.VUnlink(g.ix, a, b, rel, "", false); err != nil {
 		g.cs.Fail("VUnlink failed: %v", err)
 	}
 }
@@ -288,13 +352,20 @@ func (g *c11G) bind() {
 	if msg := g.x.BindGraph(); msg != "" {
 		g.cs.Fail("precondition of the C11 oracle failed — edge store and history model disagree (C10/C12 territory): %s", msg)
 	}
-	g.ref = c11BuildRef(g.x)
+	g.ref = c11BuildRef(g.x, g.ix)
 	g.liveCount = len(g.ref.live)
-	g.cs.Attach("edge_versions", g.ref.history())
-	g.cs.Attach("live_vectors", vexec.SortedKeys(g.ref.live))
+	g.cs.Attach("edge_versions."+g.ix, g.ref.history())
+	g.cs.Attach("live_vectors."+g.ix, vexec.SortedKeys(g.ref.live))
+	if t := g.twin; t != nil {
+		t.ref = c11BuildRef(t.x, t.ix)
+		t.liveCount = len(t.ref.live)
+		g.cs.Attach("edge_versions."+t.ix, t.ref.history())
+		g.cs.Attach("live_vectors."+t.ix, vexec.SortedKeys(t.ref.live))
+	}
 }
 
 func (g *c11G) fail(kind string, t int64, format string, a ...any) {
+	g.cs.Attach("queried_index", g.ix)
 	g.cs.Attach("query_time", t)
 	g.cs.Attach("active_edges_at_query_time", g.ref.activeList(t))
 	g.cs.Fail(kind+": "+format, a...)
@@ -315,15 +386,28 @@ func (g *c11G) noteTime(t int64) {
 
 // FindPath: soundness of every returned path, optimality, and completeness up to maxDepth.
 func (g *c11G) checkFindPath(src, dst string, rels []string, maxDepth int, t int64) {
-	g.cs.Op("FindPath(%s,%s,%v,maxDepth=%d,at=%d)", src, dst, rels, maxDepth, t)
-	g.nqueries++
-	g.noteTime(t)
-	res, err := g.x.E.FindPath(c11Index, src, dst, rels, maxDepth, t)
-	g.ctx.Count("findpath.calls", 1)
 	rs := c11RelSet(rels)
 	want := -1
-	if d, ok := c11BFS(g.ref.adj(rs, t, "out"), src, -1)[dst]; ok {
+	if d, ok := g.ref.distFrom(rs, t, "out", src)[dst]; ok {
 		want = d
+	}
+	if maxDepth > c11SpinFreeDepth && want < 0 && g.ctx.IsKnown("D-C11-2") {
+		// D-C11-2: the search loop runs maxDepth rounds even when both frontiers are empty, so
+		// an unreachable target with a huge maxDepth costs maxDepth iterations (2^31: seconds,
+		// MaxInt: for ever). Exactly that trigger is left to the probe while the finding is open.
+		maxDepth = c11SpinFreeDepth
+		g.ctx.Count("findpath.guard_D-C11-2", 1)
+	}
+	g.cs.Op("FindPath(%s,%s,%s,%v,maxDepth=%d,at=%d)", g.ix, src, dst, rels, maxDepth, t)
+	g.nqueries++
+	g.noteTime(t)
+	res, err := g.x.E.FindPath(g.ix, src, dst, rels, maxDepth, t)
+	g.ctx.Count("findpath.calls", 1)
+	if maxDepth > c11SpinFreeDepth {
+		g.ctx.Count("findpath.huge_maxdepth", 1)
+		if want < 0 {
+			g.ctx.Count("findpath.huge_maxdepth_unreachable", 1)
+		}
 	}
 	must := want >= 0 && want <= maxDepth
 	if err != nil {
@@ -364,6 +448,18 @@ func (g *c11G) checkFindPath(src, dst string, rels []string, maxDepth int, t int
 		if !rs[e.Relation] || !g.ref.hasEdge(e.Source, e.Target, map[string]bool{e.Relation: true}, t) {
 			g.fail("FindPath", t, "%s->%s rels=%v at=%d: reported edge %s-[%s]->%s is not an active edge of an allowed relation", src, dst, rels, t, e.Source, e.Relation, e.Target)
 		}
+		// clause "every hop is an active edge of an allowed relation": the edge records are the
+		// details of the hops of the returned path, so each must join two consecutive path nodes
+		// (the list may be partial: the engine documents "at least the first half").
+		onPath := false
+		for i := 0; i+1 < len(p); i++ {
+			if p[i] == e.Source && p[i+1] == e.Target {
+				onPath = true
+			}
+		}
+		if !onPath {
+			g.fail("FindPath", t, "%s->%s rels=%v at=%d: reported edge %s-[%s]->%s is not a hop of the returned path %v", src, dst, rels, t, e.Source, e.Relation, e.Target, p)
+		}
 	}
 	hops := len(p) - 1
 	if want < 0 || hops != want {
@@ -376,6 +472,9 @@ func (g *c11G) checkFindPath(src, dst string, rels []string, maxDepth int, t int
 		g.ctx.Count("findpath.found_beyond_maxdepth", 1)
 	}
 	g.ctx.Count(fmt.Sprintf("findpath.found_hops_%d", min(hops, 7)), 1)
+	if hops >= 9 {
+		g.ctx.Count("findpath.found_hops_9_or_more", 1)
+	}
 }
 
 // VExtractSubgraph: nodes == undirected neighbourhood within the (clamped) depth; every
@@ -384,7 +483,7 @@ func (g *c11G) checkSubgraph(root string, rels []string, depth int, t int64) {
 	g.cs.Op("VExtractSubgraph(%s,%v,depth=%d,at=%d)", root, rels, depth, t)
 	g.nqueries++
 	g.noteTime(t)
-	res, err := g.x.E.VExtractSubgraph(c11Index, root, rels, depth, t, nil, 0)
+	res, err := g.x.E.VExtractSubgraph(g.ix, root, rels, depth, t, nil, 0)
 	g.ctx.Count("subgraph.calls", 1)
 	if err != nil || res == nil {
 		g.fail("VExtractSubgraph", t, "root=%s rels=%v depth=%d at=%d returned err=%v result=%v", root, rels, depth, t, err, res)
@@ -448,6 +547,149 @@ func (g *c11G) checkSubgraph(root string, rels []string, depth int, t int64) {
 	if len(res.Edges) > bound {
 		g.fail("VExtractSubgraph", t, "root=%s rels=%v depth=%d at=%d: edge list has %d records but only %d active edges of the requested relations exist (at most %d records if every node is expanded once)", root, rels, depth, t, len(res.Edges), bound/2, bound)
 	}
+	if g.cs.R.Chance(0.25) {
+		g.checkGuidedSubgraph(root, rels, depth, t)
+	}
+}
+
+// refDist: distance between node n's stored vector and q as the index defines it (squared
+// Euclidean, or 1 - cosine), computed in float64 from the model's copy of the vector.
+func (g *c11G) refDist(n string, q []float32) float64 {
+	v := g.ref.vecs[n]
+	if g.x.M.Idx[g.ix].Cfg.Metric == distance.Cosine {
+		var dot, nv, nq float64
+		for i := range q {
+			dot += float64(v[i]) * float64(q[i])
+			nv += float64(v[i]) * float64(v[i])
+			nq += float64(q[i]) * float64(q[i])
+		}
+		if nv == 0 || nq == 0 {
+			return math.NaN()
+		}
+		return 1 - dot/math.Sqrt(nv*nq)
+	}
+	var s float64
+	for i := range q {
+		d := float64(v[i]) - float64(q[i])
+		s += d * d
+	}
+	return s
+}
+
+// c11GatedBFS: nodes within maxDepth hops of root when a neighbour is entered only if pass(nb).
+func c11GatedBFS(adj map[string][]string, root string, maxDepth int, pass func(string) bool) map[string]int {
+	dist := map[string]int{root: 0}
+	q := []string{root}
+	for len(q) > 0 {
+		c := q[0]
+		q = q[1:]
+		if dist[c] >= maxDepth {
+			continue
+		}
+		for _, nb := range adj[c] {
+			if _, ok := dist[nb]; !ok && pass(nb) {
+				dist[nb] = dist[c] + 1
+				q = append(q, nb)
+			}
+		}
+	}
+	return dist
+}
+
+// Guided extraction (guide vector + threshold): the walk additionally refuses neighbours whose
+// stored vector is farther from the guide than the threshold. What the property fixes:
+//   - upper bound: whatever the gate does, every returned node lies in the un-gated
+//     neighbourhood ("cover exactly the nodes reachable ... within the depth limit through the
+//     allowed relations"), every edge is an active edge of an allowed relation;
+//   - lower bound: the nodes reachable through neighbours that certainly pass the gate (stored
+//     vector, distance below the threshold by a float margin) must be covered.
+//
+// Neighbours that are not stored vectors (distance undefined) and distances within the margin
+// of the threshold may go either way, and so may everything behind them.
+func (g *c11G) checkGuidedSubgraph(root string, rels []string, depth int, t int64) {
+	q := g.query()
+	live := vexec.SortedKeys(g.ref.live)
+	dist := map[string]float64{}
+	var ds []float64
+	for _, n := range live {
+		d := g.refDist(n, q)
+		dist[n] = d
+		if !math.IsNaN(d) {
+			ds = append(ds, d)
+		}
+	}
+	sort.Float64s(ds)
+	var thr float64
+	switch k := g.cs.R.Intn(8); {
+	case k == 0:
+		thr = -1 // nothing passes
+	case k == 1:
+		thr = 1e9 // every stored vector passes
+	case k == 2 && len(ds) > 0:
+		thr = vkit.Pick(g.cs.R, ds) // on a distance: that node is inside the margin
+	case len(ds) > 0:
+		i := g.cs.R.Intn(len(ds))
+		if i+1 < len(ds) {
+			thr = (ds[i] + ds[i+1]) / 2
+		} else {
+			thr = ds[i] + 1
+		}
+	default:
+		thr = 1
+	}
+	g.cs.Op("VExtractSubgraph(%s,%s,%v,depth=%d,at=%d,guide=%v,threshold=%v)", g.ix, root, rels, depth, t, q, thr)
+	g.nqueries++
+	res, err := g.x.E.VExtractSubgraph(g.ix, root, rels, depth, t, q, thr)
+	g.ctx.Count("subgraph.guided_calls", 1)
+	if err != nil || res == nil {
+		g.fail("VExtractSubgraph(guided)", t, "root=%s rels=%v depth=%d at=%d guide=%v threshold=%v returned err=%v result=%v", root, rels, depth, t, q, thr, err, res)
+	}
+	margin := func(d float64) float64 { return 1e-3 * (1 + math.Abs(d)) }
+	sure := func(n string) bool {
+		d, ok := dist[n]
+		return ok && !math.IsNaN(d) && d <= thr-margin(d)
+	}
+	maybe := func(n string) bool {
+		d, ok := dist[n]
+		return !ok || math.IsNaN(d) || d <= thr+margin(d)
+	}
+	rs := c11RelSet(rels)
+	adj := g.ref.adj(rs, t, "both")
+	effLo, effHi := depth, depth
+	if depth > 5 {
+		effLo, effHi = 5, 5 // documented cap
+	}
+	if depth <= 0 {
+		effLo, effHi = 0, 5 // API default not fixed by the property
+	}
+	lower := c11GatedBFS(adj, root, effLo, sure)
+	upper := c11GatedBFS(adj, root, effHi, maybe)
+	got := map[string]bool{}
+	for _, n := range res.Nodes {
+		if got[n.ID] {
+			g.fail("VExtractSubgraph(guided)", t, "root=%s: node %s listed twice", root, n.ID)
+		}
+		got[n.ID] = true
+		if _, ok := upper[n.ID]; !ok {
+			g.fail("VExtractSubgraph(guided)", t, "root=%s rels=%v depth=%d at=%d guide=%v threshold=%v: node %s is not reachable within the depth limit through neighbours that can pass the gate (distances %v); reference upper set %v", root, rels, depth, t, q, thr, n.ID, dist, c11Keys(upper))
+		}
+	}
+	for _, n := range c11Keys(lower) {
+		if !got[n] {
+			g.fail("VExtractSubgraph(guided)", t, "root=%s rels=%v depth=%d at=%d guide=%v threshold=%v: node %s is reachable within the depth limit through stored vectors whose distance is below the threshold (distances %v) but is missing from %v", root, rels, depth, t, q, thr, n, dist, vexec.SortedKeys(got))
+		}
+	}
+	for _, e := range res.Edges {
+		if !rs[e.Relation] || !g.ref.hasEdge(e.Source, e.Target, map[string]bool{e.Relation: true}, t) {
+			g.fail("VExtractSubgraph(guided)", t, "root=%s rels=%v depth=%d at=%d: reported edge %s-[%s]->%s (%s) is not an active edge of an allowed relation", root, rels, depth, t, e.Source, e.Relation, e.Target, e.Dir)
+		}
+	}
+	if len(lower) > 1 && len(lower) < len(c11BFS(adj, root, effHi)) {
+		g.ctx.Count("subgraph.guided_gate_cuts_and_keeps", 1)
+	}
+	if len(upper) == len(lower) {
+		g.ctx.Count("subgraph.guided_exact", 1)
+	}
 }
 
 func (g *c11G) query() []float32 {
@@ -484,14 +726,45 @@ func (g *c11G) checkScopedSearch(root string, rels []string, dir string, depth i
 	k := len(g.nodes) + g.cs.R.Intn(3)
 	ef := vkit.Pick(g.cs.R, []int{0, 0, 50, 200})
 	q := g.query()
-	g.cs.Op("VSearch(q=%v,k=%d,ef=%d,graph=%s)", q, k, ef, vkit.JSON(gq))
+	g.cs.Op("VSearch(%s,q=%v,k=%d,ef=%d,graph=%s)", g.ix, q, k, ef, vkit.JSON(gq))
 	g.nqueries++
-	ids, err := g.x.E.VSearch(c11Index, q, k, "", "", ef, 1.0, gq)
+	ids, err := g.x.E.VSearch(g.ix, q, k, "", "", ef, 1.0, gq)
 	g.ctx.Count("scoped_search.calls", 1)
 	if err != nil {
 		g.fail("VSearch+GraphQuery", 0, "root=%s rels=%v dir=%q depth=%d returned error %v", root, rels, dir, depth, err)
 	}
 	g.compareScoped("VSearch+GraphQuery", ids, root, rels, dir, depth)
+	// k smaller than the scope: whatever the ranking picks, every hit must lie in the scope
+	// ("graph-scoped search covers exactly the nodes reachable ..."), no id twice, at most k
+	// hits, and at least one hit when the scope holds a live vector.
+	if want, exact := g.wantScoped(root, rels, dir, depth); exact && len(want) >= 2 && g.cs.R.Chance(0.3) {
+		k2 := g.cs.R.Range(1, len(want)-1)
+		q2 := g.query()
+		g.cs.Op("VSearch(%s,q=%v,k=%d,ef=%d,graph=%s)", g.ix, q2, k2, ef, vkit.JSON(gq))
+		g.nqueries++
+		ids2, err := g.x.E.VSearch(g.ix, q2, k2, "", "", ef, 1.0, gq)
+		g.ctx.Count("scoped_search.calls_small_k", 1)
+		if err != nil {
+			g.fail("VSearch+GraphQuery", 0, "root=%s rels=%v dir=%q depth=%d k=%d returned error %v", root, rels, dir, depth, k2, err)
+		}
+		ws := c11RelSet(want)
+		seen := map[string]bool{}
+		for _, id := range ids2 {
+			if seen[id] {
+				g.fail("VSearch+GraphQuery", 0, "root=%s k=%d: id %s returned twice: %v", root, k2, id, ids2)
+			}
+			seen[id] = true
+			if !ws[id] {
+				g.fail("VSearch+GraphQuery", 0, "root=%s rels=%v dir=%q depth=%d k=%d: returned %s which is outside the reference scope %v", root, rels, dir, depth, k2, id, want)
+			}
+		}
+		if len(ids2) > k2 || len(ids2) == 0 {
+			g.fail("VSearch+GraphQuery", 0, "root=%s rels=%v dir=%q depth=%d k=%d: %d hits %v although the scope holds %d live vectors %v", root, rels, dir, depth, k2, len(ids2), ids2, len(want), want)
+		}
+		if len(ids2) < k2 {
+			g.ctx.Count("scoped_search.small_k_short_answer_not_judged", 1)
+		}
+	}
 	return ids
 }
 
@@ -560,7 +833,9 @@ func (g *c11G) expSize(cur string, path []string, cap int) int {
 // hydrate=true: targets that are not live vectors may be omitted (documented: ids that are
 // not found are omitted on hydration), so T∩live ⊆ got ⊆ T; hydrate=false: got == T.
 // Levels at or beyond the recursion cap (10) may be cut: got ⊆ T only.
-func (g *c11G) cmpTree(api, where, cur string, path []string, level int, got []engine.GraphNode, hydrate bool) {
+// truncated=true (the traversal spent its whole node budget, see c11TraversalCap): any level
+// may have been cut, so only got ⊆ T and "no node twice below one parent" are demanded.
+func (g *c11G) cmpTree(api, where, cur string, path []string, level int, got []engine.GraphNode, hydrate, truncated bool) {
 	want := g.ref.adj(map[string]bool{path[0]: true}, 0, "out")[cur]
 	ws := c11RelSet(want)
 	gs := map[string]bool{}
@@ -573,7 +848,9 @@ func (g *c11G) cmpTree(api, where, cur string, path []string, level int, got []e
 			g.fail(api, 0, "%s: level %d below %s via relation %q contains %s; the active out-neighbours are %v", where, level, cur, path[0], n.ID, want)
 		}
 	}
-	if level < 10 {
+	if truncated {
+		g.ctx.Count("traverse.levels_in_truncated_result", 1)
+	} else if level < 10 {
 		for _, w := range want {
 			if !gs[w] && (!hydrate || g.ref.live[w]) {
 				g.fail(api, 0, "%s: level %d below %s via relation %q lacks %s; got %v, active out-neighbours %v", where, level, cur, path[0], w, vexec.SortedKeys(gs), want)
@@ -591,14 +868,16 @@ func (g *c11G) cmpTree(api, where, cur string, path []string, level int, got []e
 			}
 		}
 		if len(rest) > 0 {
-			g.cmpTree(api, where, n.ID, rest, level+1, n.Connections[key], hydrate)
+			g.cmpTree(api, where, n.ID, rest, level+1, n.Connections[key], hydrate, truncated)
 		}
 	}
 	g.ctx.Count("traverse.levels_compared", 1)
 }
 
 // genPaths draws 1-3 distinct relation paths whose model expansion from every start stays small.
-func (g *c11G) genPaths(starts []string, allowLong bool) []string {
+// overCap=true: no truncation, so on dense cyclic graphs the model expansion may exceed the
+// engine's size cap (the oracle then checks the cap and the subset relation only).
+func (g *c11G) genPaths(starts []string, allowLong, overCap bool) []string {
 	n := g.cs.R.Range(1, 3)
 	seen := map[string]bool{}
 	var out []string
@@ -613,8 +892,11 @@ func (g *c11G) genPaths(starts []string, allowLong bool) []string {
 			if g.cs.R.Chance(0.03) {
 				segs[i] = "nope"
 			}
+			if g.cs.R.Chance(0.015) {
+				segs[i] = "" // "r..s" / "": no edge carries the empty relation, the walk ends there
+			}
 		}
-		for len(segs) > 1 {
+		for len(segs) > 1 && !overCap {
 			big := false
 			for _, s := range starts {
 				if g.expSize(s, segs, c11ExpansionLimit(g.ctx)) > c11ExpansionLimit(g.ctx) {
@@ -639,10 +921,24 @@ func (g *c11G) genPaths(starts []string, allowLong bool) []string {
 }
 
 func (g *c11G) checkTraverse(start string) {
-	paths := g.genPaths([]string{start}, true)
-	g.cs.Op("VTraverse(%s,%v)", start, paths)
+	// ~4 % of the calls on a graph with a cycle skip the truncation that keeps expansions
+	// small: the size-cap branch of the engine is then reached and judged (not while D-C11-1,
+	// the missing cap, is an open finding: such a call would exhaust memory).
+	overCap := !g.ctx.IsKnown("D-C11-1") && g.cs.R.Chance(0.04)
+	paths := g.genPaths([]string{start}, true, overCap)
+	if g.cs.R.Chance(0.03) {
+		paths = []string{} // no path: the start node alone, no connections
+	}
+	if overCap {
+		g.ctx.Count("traverse.calls_without_size_truncation", 1)
+	}
+	g.checkTraverseWith(start, paths)
+}
+
+func (g *c11G) checkTraverseWith(start string, paths []string) {
+	g.cs.Op("VTraverse(%s,%s,%q)", g.ix, start, paths)
 	g.nqueries++
-	res, err := g.x.E.VTraverse(c11Index, start, paths)
+	res, err := g.x.E.VTraverse(g.ix, start, paths)
 	g.ctx.Count("traverse.calls", 1)
 	if !g.ref.live[start] {
 		// the start must be a stored vector; nothing is demanded otherwise
@@ -673,7 +969,18 @@ func (g *c11G) cmpConnections(api, start string, paths []string, conns map[strin
 		if len(segs) > 10 {
 			g.ctx.Count("traverse.paths_longer_than_cap", 1)
 		}
-		g.cmpTree(api, fmt.Sprintf("start=%s path=%s", start, p), start, segs, 0, conns[p], hydrate)
+		// size cap: one relation-path expansion materialises at most c11TraversalCap nodes
+		// ("every traversal terminates ... within its depth and size caps"); a result below
+		// the cap cannot have been cut by it and is compared exactly.
+		n := c11CountNodes(conns[p])
+		if n > c11TraversalCap {
+			g.fail(api, 0, "start=%s path=%s: the expansion materialised %d nodes, the size cap is %d", start, p, n, c11TraversalCap)
+		}
+		truncated := n == c11TraversalCap
+		if truncated {
+			g.ctx.Count("traverse.results_at_size_cap", 1)
+		}
+		g.cmpTree(api, fmt.Sprintf("start=%s path=%s", start, p), start, segs, 0, conns[p], hydrate, truncated)
 	}
 }
 
@@ -685,13 +992,13 @@ func (g *c11G) checkSearchGraph(root string, rels []string, dir string, depth in
 	if len(starts) == 0 {
 		starts = []string{root}
 	}
-	paths := g.genPaths(starts, false)
+	paths := g.genPaths(starts, false, false)
 	hydrate := g.cs.R.Chance(0.5)
 	k := len(g.nodes) + 1
 	q := g.query()
-	g.cs.Op("VSearchGraph(q=%v,k=%d,paths=%v,hydrate=%v,graph=%s)", q, k, paths, hydrate, vkit.JSON(gq))
+	g.cs.Op("VSearchGraph(%s,q=%v,k=%d,paths=%q,hydrate=%v,graph=%s)", g.ix, q, k, paths, hydrate, vkit.JSON(gq))
 	g.nqueries++
-	res, err := g.x.E.VSearchGraph(c11Index, q, k, "", "", 0, 1.0, paths, hydrate, gq)
+	res, err := g.x.E.VSearchGraph(g.ix, q, k, "", "", 0, 1.0, paths, hydrate, gq)
 	g.ctx.Count("search_graph.calls", 1)
 	if err != nil {
 		g.fail("VSearchGraph", 0, "root=%s returned error %v", root, err)
@@ -718,7 +1025,12 @@ func (g *c11G) pickTime() int64 {
 	}
 	i := g.cs.R.Intn(len(st))
 	switch g.cs.R.Intn(10) {
-	case 0, 1, 2, 3:
+	case 0, 1, 2:
+		return st[i]
+	case 3:
+		if g.cs.R.Chance(0.3) {
+			return -1 - int64(g.cs.R.Intn(3)) // a negative instant: nothing was created at or before it
+		}
 		return st[i]
 	case 4:
 		return st[i] - 1
@@ -752,6 +1064,12 @@ func (g *c11G) pickRels() []string {
 	if g.cs.R.Chance(0.05) {
 		out = append(out, out[0]) // duplicate
 	}
+	if g.cs.R.Chance(0.03) {
+		// a long list with repeats and unused names (bookkeeping of the per-relation loops)
+		for i, k := 0, g.cs.R.Range(3, 6); i < k; i++ {
+			out = append(out, vkit.Pick(g.cs.R, append([]string{"nope", "v"}, g.rels...)))
+		}
+	}
 	return out
 }
 
@@ -762,18 +1080,30 @@ func (g *c11G) pickNode() string {
 	return vkit.Pick(g.cs.R, g.nodes)
 }
 
+// c11Depths: maxDepth values of random FindPath calls. The property quantifies over every
+// depth; the huge ones decide "terminates within its depth cap" for a bound that is no bound.
+var c11Depths = []int{1, 1, 2, 2, 3, 3, 4, 5, 6, 10, 0, -1, 100, 1000, 1 << 20, 1 << 31, math.MaxInt}
+
 func (g *c11G) randomQuery() {
+	if g.twin != nil && g.cs.R.Chance(0.5) {
+		g.twin.randomQuery1()
+		return
+	}
+	g.randomQuery1()
+}
+
+func (g *c11G) randomQuery1() {
 	switch g.cs.R.Intn(20) {
-	case 0, 1, 2, 3, 4, 5, 6, 7, 8:
-		md := vkit.Pick(g.cs.R, []int{1, 1, 2, 2, 3, 3, 4, 5, 6, 10, 0, -1})
+	case 0, 1, 2, 3, 4, 5, 6, 7:
+		md := vkit.Pick(g.cs.R, c11Depths)
 		g.checkFindPath(g.pickNode(), g.pickNode(), g.pickRels(), md, g.pickTime())
-	case 9, 10, 11, 12:
+	case 8, 9, 10, 11:
 		d := vkit.Pick(g.cs.R, []int{1, 1, 2, 2, 3, 4, 5, 6, 9, 0, -1})
 		g.checkSubgraph(g.pickNode(), g.pickRels(), d, g.pickTime())
-	case 13, 14, 15, 16:
+	case 12, 13, 14, 15:
 		d := vkit.Pick(g.cs.R, []int{1, 1, 2, 2, 3, 4, 5, 6, 9, 0, -1})
 		g.checkScopedSearch(g.pickNode(), g.pickRels(), vkit.Pick(g.cs.R, []string{"out", "in", "both", ""}), d)
-	case 17, 18:
+	case 16, 17:
 		g.checkTraverse(g.pickNode())
 	default:
 		d := vkit.Pick(g.cs.R, []int{1, 2, 3, 5, 7})
@@ -788,6 +1118,8 @@ func (g *c11G) sweepPaths(rels []string, t int64) {
 			for md := 1; md <= 7; md++ {
 				g.checkFindPath(s, d, rels, md, t)
 			}
+			// and one bound that is no bound (every pair, reachable or not)
+			g.checkFindPath(s, d, rels, vkit.Pick(g.cs.R, []int{100, 1 << 20, 1 << 31, math.MaxInt}), t)
 		}
 	}
 }
@@ -805,11 +1137,19 @@ func (g *c11G) sweepNeighbourhoods(rels []string, t int64) {
 					g.checkScopedSearch(root, rels, dir, d)
 				}
 			}
+			// scope + relation-path expansion from every hit (the only call that compares the
+			// un-hydrated expansion through nodes without a vector exactly)
+			g.checkSearchGraph(root, rels, vkit.Pick(g.cs.R, []string{"out", "in", "both", ""}), g.cs.R.Range(1, 6))
 		}
 	}
 }
 
 func (g *c11G) finish(kind string) {
+	if t := g.twin; t != nil {
+		g.nqueries += t.nqueries
+		g.ctx.Count("queries.on_twin_index", int64(t.nqueries))
+		g.histDiff = g.histDiff || t.histDiff
+	}
 	g.ctx.Eval(1)
 	g.ctx.Count("graphs."+kind, 1)
 	g.ctx.Count("queries", int64(g.nqueries))
@@ -847,9 +1187,26 @@ func c11Random(ctx *vkit.Ctx, cs *vkit.Case) {
 	}
 	g := c11Open(ctx, cs, nodes, rels, noVec)
 	defer g.close()
+	// name-space isolation: in a fifth of the cases a second index "h" lives on the same
+	// engine, its graph uses the same node ids with its own edges and vectors, both graphs are
+	// built interleaved and queried alternately; each is compared with its own reference.
+	if r.Chance(0.2) {
+		noVec2 := map[string]bool{}
+		for _, nd := range nodes[1:] {
+			if r.Chance(0.3) {
+				noVec2[nd] = true
+			}
+		}
+		g.openTwin("h", noVec2)
+		ctx.Count("graphs.with_twin_index", 1)
+	}
 
 	mutate := func(steps int) {
 		for i := 0; i < steps; i++ {
+			tg := g
+			if g.twin != nil && r.Chance(0.5) {
+				tg = g.twin
+			}
 			a, b, rel := vkit.Pick(r, nodes), vkit.Pick(r, nodes), vkit.Pick(r, rels)
 			switch p := r.Intn(100); {
 			case p < 60:
@@ -862,7 +1219,7 @@ func c11Random(ctx *vkit.Ctx, cs *vkit.Case) {
 				if r.Chance(0.1) {
 					props = map[string]any{"k": vkit.Pick(r, []string{"a", "b"})}
 				}
-				if err := g.x.VLink(c11Index, a, b, rel, inv, w, props); err != nil {
+				if err := g.x.VLink(tg.ix, a, b, rel, inv, w, props); err != nil {
 					cs.Fail("VLink failed: %v", err)
 				}
 				ctx.Count("build.link", 1)
@@ -870,7 +1227,11 @@ func c11Random(ctx *vkit.Ctx, cs *vkit.Case) {
 				// prefer an edge that is currently active
 				if r.Chance(0.75) {
 					var act [][3]string
+					pre := vexec.GraphID(tg.ix, "")
 					for k, vs := range g.x.M.Edges {
+						if !strings.HasPrefix(k.Src, pre) {
+							continue
+						}
 						for _, v := range vs {
 							if v.Deleted == 0 && v.DHi == 0 {
 								act = append(act, [3]string{vexec.NodeOf(k.Src), vexec.NodeOf(v.Target), k.Rel})
@@ -887,31 +1248,31 @@ func c11Random(ctx *vkit.Ctx, cs *vkit.Case) {
 				if r.Chance(0.1) {
 					inv = vkit.Pick(r, rels)
 				}
-				if err := g.x.VUnlink(c11Index, a, b, rel, inv, false); err != nil {
+				if err := g.x.VUnlink(tg.ix, a, b, rel, inv, false); err != nil {
 					cs.Fail("VUnlink failed: %v", err)
 				}
 				ctx.Count("build.soft_unlink", 1)
 			case p < 88:
-				if err := g.x.VUnlink(c11Index, a, b, rel, "", true); err != nil {
+				if err := g.x.VUnlink(tg.ix, a, b, rel, "", true); err != nil {
 					cs.Fail("VUnlink(hard) failed: %v", err)
 				}
 				ctx.Count("build.hard_unlink", 1)
 			case p < 92:
 				// delete a vector (its edges are soft-unlinked by the cascade); keep one alive
-				mi := g.x.M.Idx[c11Index]
+				mi := g.x.M.Idx[tg.ix]
 				if len(mi.Recs) > 1 && mi.Recs[a] != nil {
-					if err := g.x.VDelete(c11Index, a); err != nil {
+					if err := g.x.VDelete(tg.ix, a); err != nil {
 						cs.Fail("VDelete failed: %v", err)
 					}
 					ctx.Count("build.vdelete", 1)
 				}
 			case p < 95:
 				// (re-)add the vector of a node that has none
-				mi := g.x.M.Idx[c11Index]
+				mi := g.x.M.Idx[tg.ix]
 				if mi.Recs[a] == nil {
 					for i, nd := range nodes {
 						if nd == a {
-							g.addVec(i, a)
+							tg.addVec(i, a)
 						}
 					}
 					ctx.Count("build.vadd_later", 1)
@@ -943,10 +1304,32 @@ func c11Random(ctx *vkit.Ctx, cs *vkit.Case) {
 		g.randomQuery()
 	}
 	if r.Chance(0.15) {
-		g.sweepPaths(g.pickRels(), g.pickTime())
+		sg := g
+		if g.twin != nil && r.Chance(0.5) {
+			sg = g.twin
+		}
+		sg.sweepPaths(sg.pickRels(), sg.pickTime())
 		ctx.Count("sweeps.all_pairs", 1)
 	}
 	if phase2 {
+		// histories: the same graph after a restart (journal replay) or after snapshot + restart.
+		// Not after DB.VacuumGraph with an explicit cutoff: the harness calls the core directly
+		// there, the prune is not journaled and pruned versions legitimately come back.
+		if !g.vacuumed && r.Chance(0.2) {
+			if r.Chance(0.5) {
+				if err := g.x.SaveSnapshot(); err != nil {
+					cs.Fail("SaveSnapshot failed: %v", err)
+				}
+				ctx.Count("build.snapshot", 1)
+			}
+			g.x.Settle()
+			g.x.Restart()
+			ctx.Count("build.restart", 1)
+			g.bind()
+			for i := 0; i < 8; i++ {
+				g.randomQuery()
+			}
+		}
 		mutate(r.Range(2, 10))
 		g.bind()
 		for i := first; i < nq; i++ {
@@ -1096,7 +1479,7 @@ func c11Shape(ctx *vkit.Ctx, cs *vkit.Case) {
 			g.unlink(a, b, "r")
 		}
 		if variant%3 == 0 {
-			if err := g.x.VLink(c11Index, c, d, "r", "", 2, nil); err != nil { // weight change = supersede
+			if err := g.x.VLink(g.ix, c, d, "r", "", 2, nil); err != nil { // weight change = supersede
 				cs.Fail("VLink failed: %v", err)
 			}
 		}
@@ -1111,7 +1494,7 @@ func c11Shape(ctx *vkit.Ctx, cs *vkit.Case) {
 		g.unlink(nodes[0], nodes[len(nodes)-1], "r")
 	case "two_way_chain":
 		for i := 0; i+1 < len(nodes); i++ {
-			if err := g.x.VLink(c11Index, nodes[i], nodes[i+1], "r", "s", 1, nil); err != nil {
+			if err := g.x.VLink(g.ix, nodes[i], nodes[i+1], "r", "s", 1, nil); err != nil {
 				cs.Fail("VLink failed: %v", err)
 			}
 		}
@@ -1185,10 +1568,118 @@ func c11Shape(ctx *vkit.Ctx, cs *vkit.Case) {
 	} else {
 		g.checkTraverse(nodes[0])
 	}
+	if kind == "dense_cyclic" && !ctx.IsKnown("D-C11-1") {
+		// the size-cap region: degree^segments far beyond the cap from a 4-5 node graph
+		if s := vkit.Pick(r, nodes); g.ref.live[s] {
+			long := strings.TrimSuffix(strings.Repeat("r.", r.Range(8, 12)), ".")
+			g.checkTraverseWith(s, []string{long, "r.s.r"})
+			ctx.Count("traverse.calls_without_size_truncation", 1)
+		}
+	}
 	for i := 0; i < 20; i++ {
 		g.randomQuery()
 	}
 	g.finish("shape." + kind)
+}
+
+// ---- larger sparse graphs ---------------------------------------------------------------
+
+// c11Sparse: 20-40 nodes, out-degree about 1.5, 1-2 relations, most nodes without a vector (so
+// graph-scoped search stays in the exact regime), some cut and restored edges. Reaches what
+// the <= 8-node graphs cannot: the depth-5 clamp with real branching, the default FindPath
+// depth with distances 5-9, frontiers of very different size, queues with dozens of entries.
+func c11Sparse(ctx *vkit.Ctx, cs *vkit.Case) {
+	r := cs.R
+	n := r.Range(20, 40)
+	nodes := make([]string, n)
+	for i := range nodes {
+		nodes[i] = fmt.Sprintf("m%02d", i)
+	}
+	rels := []string{"r", "s"}[:r.Range(1, 2)]
+	noVec := map[string]bool{}
+	for _, nd := range nodes[1:] {
+		noVec[nd] = true
+	}
+	for i, k := 0, r.Intn(6); i < k; i++ {
+		delete(noVec, vkit.Pick(r, nodes)) // <= 6 vectors in all
+	}
+	g := c11Open(ctx, cs, nodes, rels, noVec)
+	defer g.close()
+	type ed struct{ a, b, rel string }
+	var made []ed
+	put := func(e ed) {
+		if r.Chance(0.08) && len(rels) > 1 {
+			if err := g.x.VLink(g.ix, e.a, e.b, e.rel, rels[1], 1, nil); err != nil {
+				cs.Fail("VLink failed: %v", err)
+			}
+		} else {
+			g.link(e.a, e.b, e.rel)
+		}
+		made = append(made, e)
+	}
+	// backbone: the nodes in a random order, cut into chains of 3-15 nodes joined end to end
+	// with probability 1/2 (long shortest paths); then n/3 .. n/2 random cross edges
+	order := append([]string(nil), nodes...)
+	for i := len(order) - 1; i > 0; i-- {
+		j := r.Intn(i + 1)
+		order[i], order[j] = order[j], order[i]
+	}
+	for i := 0; i+1 < len(order); {
+		l := r.Range(3, 15)
+		rel := vkit.Pick(r, rels)
+		for k := 0; k < l-1 && i+1 < len(order); k++ {
+			put(ed{order[i], order[i+1], rel})
+			i++
+		}
+		if i+1 < len(order) && r.Chance(0.5) {
+			put(ed{order[i], order[i+1], vkit.Pick(r, rels)})
+		}
+		i++
+	}
+	for i, k := 0, n/3+r.Intn(n/6+1); i < k; i++ {
+		put(ed{vkit.Pick(r, nodes), vkit.Pick(r, nodes), vkit.Pick(r, rels)})
+	}
+	m := len(made)
+	for i, k := 0, r.Intn(m/6+1); i < k; i++ {
+		e := vkit.Pick(r, made)
+		g.unlink(e.a, e.b, e.rel)
+		if r.Chance(0.3) {
+			g.link(e.a, e.b, e.rel)
+		}
+	}
+	g.bind()
+	times := []int64{0}
+	if st := g.ref.stamps; len(st) > 0 {
+		times = append(times, vkit.Pick(r, st))
+	}
+	for _, t := range times {
+		rs := g.pickRels()
+		for i := 0; i < 6; i++ {
+			src := vkit.Pick(r, nodes)
+			for _, dst := range nodes {
+				for _, md := range []int{1, 3, 4, 5, 8, 12, 0, 1 << 20, math.MaxInt} {
+					g.checkFindPath(src, dst, rs, md, t)
+				}
+			}
+		}
+		for i := 0; i < 6; i++ {
+			root := vkit.Pick(r, nodes)
+			for d := 1; d <= 6; d++ {
+				g.checkSubgraph(root, rs, d, t)
+			}
+			if t == 0 {
+				for _, dir := range []string{"out", "in", "both"} {
+					for _, d := range []int{1, 2, 3, 5, 7} {
+						g.checkScopedSearch(root, rs, dir, d)
+					}
+				}
+			}
+		}
+	}
+	for i := 0; i < 30; i++ {
+		g.randomQuery()
+	}
+	g.finish("sparse")
 }
 
 func TestVerifC11(t *testing.T) {
@@ -1198,9 +1689,15 @@ func TestVerifC11(t *testing.T) {
 		ctx.Assume("VExtractSubgraph follows relations in either direction (documented behaviour); depth > 5 means 5 (documented cap); depth/MaxDepth <= 0 selects an API default the property does not fix — only soundness is checked there")
 		ctx.Assume("graph-scoped search is exact because the index holds <= 8 vectors with M=16, efConstruction=200 and k >= number of vectors")
 		ctx.Assume("hydrated traversal (VTraverse, VSearchGraph hydrate=true) may omit neighbours that are not stored vectors; levels at/after the recursion cap 10 may be cut")
+		ctx.Assume("the size cap of one relation-path expansion (one start node, one path) is 10000 materialised nodes (engine constant maxTraversalNodes); a result of exactly 10000 nodes may have been cut anywhere (subset + no duplicates only), a smaller one is compared exactly")
+		ctx.Assume("guided extraction (guide vector + threshold): a neighbour that is a stored vector is followed iff its distance to the guide (squared Euclidean / 1-cosine, as the index defines it) is <= threshold; the root is never gated; neighbours without a stored vector and distances within 1e-3*(1+d) of the threshold may go either way")
+		ctx.Assume("a negative query time means 'before everything': no edge is active (created <= T fails for every edge)")
+		ctx.Assume("FindPath's edge records describe hops of the returned path (possibly only the first half)")
+		ctx.Assume("graphs of different indexes are separate name spaces even when node ids coincide")
 		c11Probes(ctx)
 		ctx.Group("shapes", ctx.N(200, 2500), func(cs *vkit.Case) { c11Shape(ctx, cs) })
 		ctx.Group("random", ctx.N(2400, 60000), func(cs *vkit.Case) { c11Random(ctx, cs) })
+		ctx.Group("sparse", ctx.N(32, 640), func(cs *vkit.Case) { c11Sparse(ctx, cs) })
 	})
 }
 
@@ -1214,6 +1711,10 @@ func c11ExpansionLimit(ctx *vkit.Ctx) int {
 	return 6000
 }
 
+// c11TraversalCap: the size cap of one relation-path expansion (engine: maxTraversalNodes,
+// introduced by the repair of D-C11-1).
+const c11TraversalCap = 10000
+
 func c11CountNodes(ns []engine.GraphNode) int {
 	c := 0
 	for _, n := range ns {
@@ -1226,6 +1727,65 @@ func c11CountNodes(ns []engine.GraphNode) int {
 }
 
 func c11Probes(ctx *vkit.Ctx) {
+	// D-C11-2: FindPath's search loop (`for depth := 0; depth < maxDepth; depth++`) has no exit
+	// for "both frontiers are empty": when the target cannot be reached the call performs
+	// maxDepth rounds of nothing. maxDepth is passed through unchecked by the HTTP and MCP
+	// entry points, so an unreachable target with maxDepth = 2^31 costs seconds of CPU and with
+	// MaxInt64 the call never returns ("every traversal terminates ... within its depth and size
+	// caps" - the depth cap here is the caller's number, and the graph has two nodes).
+	// Fixed scenario: a-[r]->b, FindPath(a, ghost, [r], 2^33). A correct search stops when the
+	// frontiers run dry (microseconds); the loop as written needs 2^33 rounds (5-10 s). The
+	// call runs in a goroutine with a bounded wait: 2 s or 5000x the time of the same question
+	// with maxDepth 64, whichever is longer. (2^33 rather than MaxInt64 so that the abandoned
+	// goroutine ends by itself.)
+	ctx.Probe("D-C11-2", func(cs *vkit.Case) string {
+		x := vexec.NewExec(cs, cs.SubDir("data"))
+		defer func() {
+			if x.E != nil {
+				x.E.Close()
+			}
+		}()
+		if err := x.VCreate(vexec.IndexCfg{Name: c11Index, Metric: distance.Euclidean, Prec: distance.Float32, M: 16, EfC: 200}); err != nil {
+			return "setup: " + err.Error()
+		}
+		if err := x.VAdd(c11Index, "a", []float32{1, 1, 2}, nil); err != nil {
+			return "setup: " + err.Error()
+		}
+		if err := x.VLink(c11Index, "a", "b", "r", "", 1, nil); err != nil {
+			return "setup: " + err.Error()
+		}
+		e := x.E
+		t0 := time.Now()
+		if res, err := e.FindPath(c11Index, "a", "ghost", []string{"r"}, 64, 0); err != nil || res != nil {
+			return fmt.Sprintf("FindPath(a,ghost,[r],64) = %v, %v; want no path", res, err)
+		}
+		small := time.Since(t0)
+		wait := 2 * time.Second
+		if w := 5000 * small; w > wait {
+			wait = w
+		}
+		const huge = 1 << 33
+		cs.Op("FindPath(a,ghost,[r],maxDepth=%d) with a bounded wait of %v", huge, wait)
+		type answer struct {
+			res *engine.PathResult
+			err error
+		}
+		done := make(chan answer, 1)
+		go func() {
+			res, err := e.FindPath(c11Index, "a", "ghost", []string{"r"}, huge, 0)
+			done <- answer{res, err}
+		}()
+		select {
+		case a := <-done:
+			if a.err != nil || a.res != nil {
+				return fmt.Sprintf("FindPath(a,ghost,[r],%d) = %v, %v; want no path", huge, a.res, a.err)
+			}
+			return ""
+		case <-time.After(wait):
+			return fmt.Sprintf("FindPath(a, ghost, [r], maxDepth=2^33) on the graph a-[r]->b (target unreachable) had not returned after %v; the same question with maxDepth=64 took %v. The search loop runs maxDepth rounds after both frontiers are empty (pkg/engine/pathfinding.go:38): time grows linearly with maxDepth, and with maxDepth=MaxInt64 the call never returns", wait, small)
+		}
+	})
+
 	// D-C11-1: relation-path expansion (traversePath, used by VTraverse and VSearchGraph) has a
 	// depth cap (10) but neither a size cap nor a visited set, so on a cyclic graph the work
 	// and the result grow as degree^segments. Fixed scenario: complete digraph with self-loops
@@ -1265,8 +1825,8 @@ func c11Probes(ctx *vkit.Ctx) {
 			n += c11CountNodes(v)
 		}
 		ctx.Count("probe.D-C11-1.nodes_materialised", int64(n))
-		if n > 50000 {
-			return fmt.Sprintf("VTraverse(a, %q) on a 4-node complete digraph with self-loops materialised %d nodes: the expansion has no size cap (degree^segments growth up to 11 levels)", path, n)
+		if n > c11TraversalCap {
+			return fmt.Sprintf("VTraverse(a, %q) on a 4-node complete digraph with self-loops materialised %d nodes, more than the size cap of %d (without a cap: degree^segments growth up to 11 levels, 349 524 nodes here)", path, n, c11TraversalCap)
 		}
 		return ""
 	})
